@@ -171,6 +171,56 @@ func textLines(t string) []astisub.Line {
 // textKey is the text a cue shows, whatever its split into runs.
 func textKey(t string) string { return strings.ReplaceAll(t, "+", "") }
 
+// timeline is a cheap fingerprint of a list: which cue objects, in which order, with which boundaries and text.
+func timeline(s *astisub.Subtitles) string {
+	var sb strings.Builder
+	for _, it := range s.Items {
+		fmt.Fprintf(&sb, "%p[%d,%d)%q;", it, int64(it.StartAt), int64(it.EndAt), it.String())
+	}
+	return sb.String()
+}
+
+// unrelatedActivity runs every operation on a list of its own, each in a way that makes it do real work
+// (cues removed, cut, merged, a filler appended). Lists that took no part in it must not notice.
+func unrelatedActivity() {
+	specs := []cueSpec{{S: 0, E: 2 * nsMs, T: "a"}, {S: 2 * nsMs, E: 3 * nsMs, T: "a"}, {S: 5 * nsMs, E: 9 * nsMs, T: "b"}, {S: 1 * nsMs, E: 2 * nsMs, T: "c"}}
+	o := buildList(specs)
+	o.sub.Add(-3 * time.Millisecond)
+	o.sub.Order()
+	o.sub.Fragment(2 * time.Millisecond)
+	o.sub.Unfragment()
+	o.sub.ForceDuration(20*time.Millisecond, true)
+	for _, it := range o.sub.Items {
+		for li := range it.Lines {
+			for ri := range it.Lines[li].Items {
+				it.Lines[li].Items[ri].Text += "~"
+			}
+		}
+	}
+	o.sub.Merge(buildList(specs[:2]).sub)
+	o.sub.ApplyLinearCorrection(time.Second, 2*time.Second, 3*time.Second, 5*time.Second)
+	o.sub.Optimize()
+	o.sub.RemoveStyling()
+}
+
+// sampledForInterference picks about one case in eight, as a function of the case alone.
+func sampledForInterference(cs []cueSpec) bool {
+	if len(cs) == 0 {
+		return false
+	}
+	return (int64(len(cs))+cs[0].S/nsMs+cs[len(cs)-1].E/nsMs)%8 == 0
+}
+
+// interference runs unrelated operations and reports a change of the list they had nothing to do with.
+func interference(s *astisub.Subtitles) string {
+	before := timeline(s)
+	unrelatedActivity()
+	if after := timeline(s); after != before {
+		return fmt.Sprintf("the list changed while operations ran on another, unrelated list: %s -> %s", before, after)
+	}
+	return ""
+}
+
 func (b *builtList) indexOf(it *astisub.Item) int {
 	for i, p := range b.items {
 		if p == it {
